@@ -109,6 +109,14 @@ Definition spec_must_retry (d : desc) : bool :=
   | _ => false
   end.
 
+(* built by hand from the constructors only (no library call inside): [build] is a transcription *)
+Fixpoint hand_made (d : desc) : bool :=
+  match d with
+  | DCall _ _ _ => false
+  | DLib _ d' | DFmt _ d' | DConn _ _ d' | DPtrErrField _ d' => hand_made d'
+  | _ => true
+  end.
+
 Definition sent_target_ok (d : desc) (tn : tdesc * N) : bool :=
   match fst tn with
   | TSent s =>
@@ -116,6 +124,8 @@ Definition sent_target_ok (d : desc) (tn : tdesc * N) : bool :=
       (if snd tn =? 1 then mentions s d else true)
       (* exactly the sentinel at the bottom, and no panic, for the chains the property speaks about *)
       && (if shaped d then snd tn =? (if leaf_is s (spec_leaf d) then 1 else 0) else true)
+      (* also through foreign wrappers exposing an Err field below a library wrapper *)
+      && (if hand_made d && ext_chain (build d) then snd tn =? (if occurs_sent s (build d) then 1 else 0) else true)
   | _ => true
   end.
 
